@@ -96,9 +96,25 @@ static Result run_codec(const Case &c) {
         }
         r.cls(d.rc == 0 ? "decode_ok" : "decode_err");
     }
+    // what the caller's output buffer held before the call (reconstruct is the one call that writes into caller memory):
+    // 0 poison, 1 the same fragment index of ANOTHER stripe of the same geometry (a rebuild loop reusing its buffer),
+    // 2 the right header over a zeroed payload
+    int out_prefill = (int)c.get("out_prefill", 0);
+    std::vector<std::vector<uint8_t>> other;
+    if (out_prefill == 1) {
+        std::vector<uint8_t> d2 = data;
+        for (auto &b : d2) b ^= 0x5c;
+        other = ref::serialize_stripe(g, d2.data(), d2.size(), liberasurecode_get_version(), false);
+        r.cls("output_buffer_holds_other_stripe");
+    }
     for (int d : dests) {
         FragSet fs; fs.build(frs, align);
-        ReconOut o = reconstruct(in.desc, fs, s.fraglen, d);
+        std::vector<uint8_t> pf;
+        if (d >= 0 && d < n) {
+            if (out_prefill == 1 && !other.empty()) pf = other[d];
+            else if (out_prefill == 2) { pf.assign(s.frags[d].begin(), s.frags[d].begin() + std::min<size_t>(80, s.frags[d].size())); pf.resize(s.frags[d].size(), 0); }
+        }
+        ReconOut o = reconstruct(in.desc, fs, s.fraglen, d, pf.empty() ? nullptr : &pf);
         if (!fs.unchanged()) r.fail("reconstruct modified an input fragment");
         bool in_range = d >= 0 && d < n;
         if (!in_range) {
@@ -275,6 +291,7 @@ static Case gen_c03() {
     c.setv("dests", dests);
     c.set("pool", coin(1, 3) ? 1 : 0);
     c.set("wenv", weighted({6, 2, 1, 1}));
+    c.set("out_prefill", weighted({3, 2, 1}));
     return c;
 }
 
@@ -326,6 +343,7 @@ static void sweep_xor_within(const RunFn &run, bool all_dests) {
                 if (all_dests) { dests.clear(); for (int d = 0; d < n; d++) dests.push_back(d); }
                 else if (n > (int)E.size()) { int d = counter % n; if (std::find(E.begin(), E.end(), d) == E.end()) dests.push_back(d); }
                 c.setv("dests", dests);
+                c.set("out_prefill", counter % 3);
                 sweep_case(c, run);
             });
     }
@@ -433,6 +451,7 @@ static void sweep_rs_boundary(const RunFn &run, int backend, bool parity_dests) 
             for (int x : E) if (!parity_dests || x >= k) dests.push_back(x);
             if (parity_dests) for (int x : E) if (x < k) { dests.push_back(x); break; }
             c.setv("dests", dests);
+            c.set("out_prefill", (counter / 2) % 3);
             sweep_case(c, run);
         }
     stats().extra["rs_shapes"] = 496;
@@ -661,6 +680,19 @@ static void *c05_decoder(void *p) {
     for (int r = 0; r < a.rounds && a.err.empty(); r++) {
         int e = t >= 2 ? 2 + (int)(splitmix64(sd) % (t - 1)) : 1;
         std::vector<bool> gone(n, false); std::vector<int> E;
+        if (a.g.backend == ref::B_XOR && a.g.hd == 4 && (r & 1)) {
+            // three data fragments that no single parity isolates (from the golden equations): the decoder has to
+            // combine two parities, the one path with scratch space of its own
+            const ref::XorShape *sh = ref::xor_shape(a.g.k, a.g.m, a.g.hd);
+            for (int tries = 0; tries < 200 && E.empty(); tries++) {
+                int x = (int)(splitmix64(sd) % a.g.k), y = (int)(splitmix64(sd) % a.g.k), z = (int)(splitmix64(sd) % a.g.k);
+                if (x == y || y == z || x == z) continue;
+                uint64_t T = (1ull << x) | (1ull << y) | (1ull << z);
+                bool isolated = false;
+                for (int j = 0; j < a.g.m; j++) if (__builtin_popcountll(ref::xor_parity_mask(sh, j) & T) == 1) isolated = true;
+                if (!isolated) { E = {x, y, z}; gone[x] = gone[y] = gone[z] = true; e = 3; }
+            }
+        }
         while ((int)E.size() < e) { int x = (int)(splitmix64(sd) % (E.empty() ? a.g.k : n)); if (!gone[x]) { gone[x] = true; E.push_back(x); } }
         std::vector<const std::vector<uint8_t> *> frs;
         for (int i = 0; i < n; i++) if (!gone[i]) frs.push_back(&a.s->frags[i]);
@@ -707,10 +739,119 @@ static void sweep_c05_mt() {
         if ((si % ns) != shard) continue;
         const ref::XorShape &sh = ref::XOR_SHAPES[si];
         Case c; Config g; g.backend = ref::B_XOR; g.k = sh.k; g.m = sh.m; g.hd = sh.hd; g.ct = CT_NONE; cfg_to(c, g);
-        c.set("data_cls", BUF_RANDOM); c.set("data_seed", 4000 + si); c.set("data_len", (int64_t)sh.k * 20);
+        c.set("data_cls", BUF_RANDOM); c.set("data_seed", 4000 + si); c.set("data_len", (int64_t)sh.k * (sh.hd == 4 ? 8192 : 20));
         c.set("decoders", 2); c.set("creators", 2); c.set("rounds", th ? 3000 : 400); c.set("seed", opts().seed * 131 + si);
         sweep_case(c, run_c05_mt);
     }
+}
+
+// C05 fault dimension: the aligned allocations the library makes DURING a decode / reconstruct (posix_memalign: the
+// front end's fragment buffers and the flat-XOR decoder's own scratch block) fail one at a time. The executable's
+// posix_memalign takes precedence over the sanitizer's weak one and forwards to it.
+extern "C" int __interceptor_posix_memalign(void **, size_t, size_t);
+static int g_pm_fail_at = -1, g_pm_calls = 0;
+static bool g_pm_armed = false;
+extern "C" int posix_memalign(void **p, size_t al, size_t sz) {
+    if (g_pm_armed) { int n = g_pm_calls++; if (n == g_pm_fail_at) return 12 /* ENOMEM */; }
+    return __interceptor_posix_memalign(p, al, sz);
+}
+static Result run_c05_allocfail(const Case &c) {
+    Result r;
+    Config g = cfg_from(c);
+    std::vector<uint8_t> data = expand_buffer(c, "data");
+    Instance in(g);
+    if (!in.ok()) { r.fail("create refused"); return r; }
+    Stripe s = encode(in.desc, g, data);
+    if (s.rc != 0) { r.fail("encode failed"); return r; }
+    int n = g.n();
+    std::vector<int> present = c.ints("present");
+    uint64_t pm = maskof(present, n);
+    std::vector<const std::vector<uint8_t> *> frs;
+    for (int i : present) frs.push_back(&s.frags[i]);
+    std::vector<int> lost;
+    for (int i = 0; i < n; i++) if (!(pm >> i & 1)) lost.push_back(i);
+    int which = (int)c.get("call", 0);      // 0 = decode, 1+j = reconstruct of the j-th lost index
+    int dest = which > 0 && !lost.empty() ? lost[(which - 1) % lost.size()] : -1;
+    auto call = [&](int fail_at, int &ncalls, std::string &what) -> bool {
+        FragSet fs; fs.build(frs, c.ints("align"));
+        g_pm_fail_at = fail_at; g_pm_calls = 0; g_pm_armed = true;
+        int rc; bool exact;
+        if (dest < 0) { char *out = nullptr; uint64_t ol = 0; rc = liberasurecode_decode(in.desc, fs.ptrs, fs.count, s.fraglen, 0, &out, &ol); g_pm_armed = false;
+            exact = rc == 0 && ol == data.size() && (ol == 0 || !memcmp(out, data.data(), ol)); if (rc == 0) liberasurecode_decode_cleanup(in.desc, out); }
+        else { std::vector<uint8_t> o(s.fraglen, 0xA5); rc = liberasurecode_reconstruct_fragment(in.desc, fs.ptrs, fs.count, s.fraglen, dest, (char *)o.data()); g_pm_armed = false; exact = rc == 0 && o == s.frags[dest]; }
+        ncalls = g_pm_calls;
+        if (!fs.unchanged()) { what = "an input fragment was modified"; return false; }
+        if (rc > 0) { what = "returned the positive code " + std::to_string(rc); return false; }
+        if (rc == 0 && !exact) { what = "returned 0 with wrong bytes"; return false; }
+        if (fail_at < 0 && rc != 0) { what = "failed (rc=" + std::to_string(rc) + ") without any injected fault"; return false; }
+        return true;
+    };
+    int N = 0, dummy = 0; std::string what;
+    if (!call(-1, N, what)) { r.fail(std::string(dest < 0 ? "decode" : "reconstruct") + " " + what); return r; }
+    for (int i = 0; i < N && r.ok; i++)
+        if (!call(i, dummy, what)) r.fail(std::string(dest < 0 ? "decode" : "reconstruct") + " with aligned allocation number " + std::to_string(i) + " of " + std::to_string(N) + " failing: " + what);
+    if (r.ok && !call(-1, dummy, what)) r.fail(std::string("the call after the failed ones ") + what);
+    stats().extra["sum_allocation_faults_injected"] += N;
+    r.nontrivial = N > 0;
+    r.cls("aligned_allocations_" + std::to_string(std::min(N, 9)));
+    return r;
+}
+// every flat-XOR table: up to four erasure sets of hd-1 data fragments that need the two-parity path (hd = 4) or are
+// plain (hd = 3), plus one mixed set; decode and the rebuild of every lost fragment
+static void sweep_c05_allocfail() {
+    int shard = (int)opts().shard, ns = (int)opts().nshards, counter = 0;
+    for (int si = 0; si < ref::N_XOR_SHAPES; si++) {
+        const ref::XorShape &sh = ref::XOR_SHAPES[si];
+        Config g; g.backend = ref::B_XOR; g.k = sh.k; g.m = sh.m; g.hd = sh.hd; g.w = 0; g.ct = (si & 1) ? CT_CRC32 : CT_NONE;
+        int n = g.n();
+        std::vector<std::vector<int>> sets;
+        if (sh.hd == 4) {
+            for (int x = 0; x < g.k && sets.size() < 4; x++) for (int y = x + 1; y < g.k && sets.size() < 4; y++) for (int z = y + 1; z < g.k && sets.size() < 4; z++) {
+                uint64_t T = (1ull << x) | (1ull << y) | (1ull << z);
+                bool isolated = false;
+                for (int j = 0; j < g.m; j++) if (__builtin_popcountll(ref::xor_parity_mask(&sh, j) & T) == 1) isolated = true;
+                if (!isolated) sets.push_back({x, y, z});
+            }
+        }
+        { std::vector<int> E; for (int i = 0; i < sh.hd - 1; i++) E.push_back((si + i * 2) % g.k); std::sort(E.begin(), E.end()); E.erase(std::unique(E.begin(), E.end()), E.end()); sets.push_back(E); }
+        { std::vector<int> E = {si % g.k, g.k + si % g.m}; sets.push_back(E); }
+        for (auto &E : sets) for (int callsel = 0; callsel <= (int)E.size(); callsel++) for (int al = 0; al < 2; al++) {
+            if ((counter++ % ns) != shard) continue;
+            Case c = base_case(g, (size_t)g.k * 48 + (counter % 3), 91000 + counter);
+            present_from_erased(c, n, E);
+            if (al) { std::vector<int> a(n - (int)E.size(), 0); a[counter % a.size()] = 4; c.setv("align", a); }
+            c.set("call", callsel);
+            sweep_case(c, run_c05_allocfail);
+        }
+    }
+    stats().exhaustive = true;
+}
+
+// the same fault dimension for the other back ends (C02: a call either returns exact bytes or an error, whatever fails inside)
+static void sweep_c02_allocfail() {
+    int shard = (int)opts().shard, ns = (int)opts().nshards, counter = 0;
+    std::vector<Config> cfgs;
+    for (int be : {ref::B_RS, ref::B_ISA_V, ref::B_ISA_C}) {
+        if (ref::is_isa(be) && !isa_available()) continue;
+        for (auto km : std::vector<std::pair<int, int>>{{1, 1}, {2, 2}, {4, 2}, {3, 5}, {10, 4}, {20, 12}}) { Config g; g.backend = be; g.k = km.first; g.m = km.second; g.hd = g.m; g.w = 0; g.ct = (g.k & 1) ? CT_CRC32 : CT_NONE; cfgs.push_back(g); }
+    }
+    for (auto &g : cfgs) {
+        int n = g.n();
+        std::vector<std::vector<int>> sets;
+        sets.push_back({});
+        sets.push_back({0});
+        { std::vector<int> E; for (int i = 0; i < g.m; i++) E.push_back(i < g.k ? i : g.k + (i - g.k)); std::sort(E.begin(), E.end()); E.erase(std::unique(E.begin(), E.end()), E.end()); sets.push_back(E); }
+        { std::vector<int> E = {g.k}; sets.push_back(E); }
+        for (auto &E : sets) for (int callsel = 0; callsel <= (int)std::min<size_t>(E.size(), 2); callsel++) for (int al = 0; al < 2; al++) {
+            if ((counter++ % ns) != shard) continue;
+            Case c = base_case(g, (size_t)g.k * 32 + (counter % 3), 93000 + counter);
+            present_from_erased(c, n, E);
+            if (al) { std::vector<int> a(n - (int)E.size(), 0); a[counter % a.size()] = 4; c.setv("align", a); }
+            c.set("call", callsel);
+            sweep_case(c, run_c05_allocfail);
+        }
+    }
+    stats().exhaustive = true;
 }
 
 // C01 with other threads creating and destroying instances of the same shape meanwhile (round trip on an existing
@@ -726,8 +867,9 @@ static void sweep_c01_mt() {
     for (auto &g : cfgs) {
         if ((counter++ % ns) != shard) continue;
         Case c; cfg_to(c, g);
-        c.set("data_cls", BUF_RANDOM); c.set("data_seed", 4100 + counter); c.set("data_len", (int64_t)g.k * 20 + (counter % 3));
-        c.set("decoders", 2); c.set("creators", 2); c.set("rounds", th ? 3000 : 400); c.set("seed", opts().seed * 137 + counter);
+        c.set("data_cls", BUF_RANDOM); c.set("data_seed", 4100 + counter); c.set("data_len", (int64_t)g.k * ((g.backend == ref::B_XOR && g.hd == 4) ? (128 << 10) : 20) + (counter % 3));
+        bool big = g.backend == ref::B_XOR && g.hd == 4;       // long copies inside the decoder: concurrent decodes on ONE descriptor overlap for real
+        c.set("decoders", big ? 3 : 2); c.set("creators", big ? 1 : 2); c.set("rounds", big ? (th ? 1500 : 250) : (th ? 3000 : 400)); c.set("seed", opts().seed * 137 + counter);
         sweep_case(c, run_c05_mt);
     }
 }
@@ -917,6 +1059,8 @@ int main(int argc, char **argv) {
     h.mode("c03_rs_sweep", [] { sweep_rs_boundary(run_c03, ref::B_RS, true); }, run_c03);
     h.mode("c05_decode_sweep", sweep_xor_c05, run_c05);
     h.mode("c05_large", [] { sweep_large(run_c05, true); }, run_c05);
+    h.mode("c05_allocfail", sweep_c05_allocfail, run_c05_allocfail);
+    h.mode("c02_allocfail", sweep_c02_allocfail, run_c05_allocfail);
     h.mode("c05_mt", sweep_c05_mt, run_c05_mt);
     h.mode("c01_mt", sweep_c01_mt, run_c05_mt);
     h.mode("c19", [] { rc_property("C19 ISA-L adapters", gen_c19, run_c19); }, run_c19);
